@@ -572,3 +572,81 @@ def decided_edges(b, dj, key, value):
             if sts and all(in_set(st.get(key), {value}) for st in sts):
                 out.append((u, v))
     return out
+
+
+def field_slice(body, operand, max_steps=600, receiver_only=()):
+    """Field-sensitive backward slice: like backward_slice, but a read of field i of a tuple / struct local that was built by
+    an aggregate follows only operand i (so `let (a, b) = (x.start(), x.end())` keeps a and b apart), and a tuple rebuilt in
+    the arms of a match (`(Some(a), Some(b)) => (a, b)`) is followed component by component. Downcasts and dereferences do
+    not select anything. For calls whose last path segment is in `receiver_only` only the first argument is followed.
+    -> (set of (local, field-path), [Call], [binary-op rvalues])"""
+    seen, calls, bins = set(), [], []
+    work = []
+
+    def fields_of(proj):
+        return tuple(e[1] for e in proj if isinstance(e, list) and e[0] == "f")
+
+    def push_place(pl, want=()):
+        work.append((pl[0], fields_of(pl[1]) + tuple(want)))
+        for e in pl[1]:
+            if isinstance(e, list) and e and e[0] == "i":
+                work.append((e[1], ()))
+
+    def push_rv(rv, want):
+        k = rv[0]
+        if k == "agg" and want and rv[1][0] in ("tuple", "adt", "closure", "array"):
+            i = want[0]
+            if i < len(rv[2]):
+                op = rv[2][i]
+                if op[0] in ("c", "m"):
+                    push_place(op[1], want[1:])
+                return
+        if k == "bin":
+            bins.append(rv)
+        for x in _rv_places(rv):
+            push_place(x, want if k in ("use", "ref", "addr", "cfd", "cast") else ())
+
+    if operand[0] in ("c", "m"):
+        push_place(operand[1])
+    steps = 0
+    while work and steps < max_steps:
+        steps += 1
+        l, want = work.pop()
+        if (l, want) in seen:
+            continue
+        seen.add((l, want))
+        for d in body.defs.get(l, []):
+            if d[0] == "call":
+                calls.append(d[2])
+                args = d[2].args
+                nm = (d[2].decl or d[2].name or "").split("::")[-1]
+                if nm in receiver_only:
+                    args = args[:1]
+                for a in args:
+                    if a[0] in ("c", "m"):
+                        push_place(a[1])
+            elif d[0] == "stmt":
+                push_rv(d[3], want)
+            elif d[0] in ("part", "dpart"):
+                pf = fields_of(d[3][1])
+                rv = d[4]
+                n = min(len(pf), len(want))
+                if pf[:n] != want[:n]:
+                    continue                      # a write to a different component
+                if rv and rv[0] != "call" and rv[0] != "setdisc":
+                    push_rv(rv, want[len(pf):] if len(want) > len(pf) else ())
+    return seen, calls, bins
+
+
+def _rv_places(rv):
+    out = []
+
+    def walk(x):
+        if isinstance(x, list):
+            if len(x) == 2 and isinstance(x[0], int) and not isinstance(x[0], bool) and isinstance(x[1], list):
+                out.append(x)
+                return
+            for y in x:
+                walk(y)
+    walk(rv)
+    return out
